@@ -217,6 +217,8 @@ pub struct Sim {
     was_leader: Vec<bool>,
     pub violations: Vec<(String, String)>,
     pub states: BTreeSet<u64>,
+    /// per target: (first index of the last append batch delivered, the target's commit index before it, response kind)
+    pub last_append: BTreeMap<u64, (u64, u64, &'static str)>,
 }
 
 impl Sim {
@@ -240,6 +242,7 @@ impl Sim {
             was_leader: vec![false; n as usize],
             violations: vec![],
             states: BTreeSet::new(),
+            last_append: BTreeMap::new(),
         }
     }
     fn n(&self) -> usize {
@@ -305,7 +308,11 @@ impl Sim {
             Msg::Req(req) => {
                 let t = req.target as usize;
                 let before = self.nodes[t].probe();
+                let commit_before = self.nodes[t].storage.commit;
                 let resp = block_on(self.nodes[t].request(&req));
+                if let Some(first) = req.append_first_index() {
+                    self.last_append.insert(req.target, (first, commit_before, resp.kind()));
+                }
                 if req.kind() == "vote" && resp.is_ok() {
                     self.votes.push((req.target, req.index, req.term(), format!("{:?} term {}", before.state, before.term)));
                 }
@@ -856,9 +863,24 @@ impl CaseEngine for C30 {
                         )
                     })
                     .collect();
+                // what the stalled followers last received: a batch that starts at or below the
+                // follower's own commit index re-sends entries it has committed already
+                let stalled: Vec<usize> = (0..sim.n())
+                    .filter(|i| appended.iter().any(|(d, _)| !sim.nodes[*i].storage.logs.iter().any(|l| l.data == *d && l.committed)))
+                    .collect();
+                let resends_committed = stalled
+                    .iter()
+                    .any(|i| matches!(sim.last_append.get(&(*i as u64)), Some((first, commit, "log_mismatch")) if *first <= *commit && *commit > 0));
+                let what = if to_append > 0 {
+                    "append_not_accepted"
+                } else if resends_committed {
+                    "replication_stalled_leader_resends_entries_the_follower_has_committed"
+                } else {
+                    "replication_stalled"
+                };
                 rep.violation(
-                    &format!("C30:appended_entry_not_committed_everywhere_within_bound:{}", if to_append > 0 { "append_not_accepted" } else { "replication_stalled" }),
-                    &format!("{n} nodes: {} of {k} appends accepted; after {h} virtual ms: {missing:?}; states {:?}", k - to_append, sim.probes()),
+                    &format!("C30:appended_entry_not_committed_everywhere_within_bound:{what}"),
+                    &format!("{n} nodes: {} of {k} appends accepted; after {h} virtual ms: {missing:?}; states {:?}; last append batch per node (first index, follower commit before, response): {:?}", k - to_append, sim.probes(), sim.last_append),
                     ctx(&sim),
                 );
             }
